@@ -147,21 +147,30 @@ def stage_pbt(pid, stage, tier):
         if rc == 2 and "GENERATOR-ERROR" in read_tail(log):
             sys.stderr.write(read_tail(log))
             raise SystemExit("generator error in %s (see %s)" % (stage["driver"], log))
-        # crash (sanitizer abort / signal): re-run the shard with one forked child per case so that the crash
-        # becomes an ordinary failure which rapidcheck can shrink
-        out.notes.append("shard %d died with status %s; re-running in fork mode" % (k, rc))
-        cmd, env, to, _ = jobs[k]
-        flog = os.path.join(wd, "forklog-%d.txt" % k)
-        rc2, _ = run_proc(cmd + ["--fork"], env, to, flog)
-        found = fail_from_log(flog)
+        # crash (sanitizer abort / signal).  The driver's death callback saved the case it was running; for rapidcheck
+        # shards the shard is re-run with one forked child per case so that the crash becomes an ordinary failure which
+        # rapidcheck can shrink (bounded in time; the unshrunk crash case is the fall-back).
+        crash_case = os.path.join(wd, "fails", "%s-crash.case" % pid)
+        crash_copy = None
+        if os.path.exists(crash_case):
+            crash_copy = os.path.join(wd, "fails", "%s-crash-shard%d.case" % (pid, k))
+            shutil.copyfile(crash_case, crash_copy)
+        out.notes.append("shard %d died with status %s (%s)" % (k, rc, sanitizer_summary(log)))
+        found = None
+        if mode == "run":
+            cmd, env, to, _ = jobs[k]
+            flog = os.path.join(wd, "forklog-%d.txt" % k)
+            rc2, _ = run_proc(cmd + ["--fork"], env, max(180, int(20 * results[k][1])), flog)
+            found = fail_from_log(flog)
         if found:
             if not out.failure:
                 out.failure = (found[0], found[1] + " | " + sanitizer_summary(log), stage, log)
-        else:
-            # not reproducible in fork mode: keep the crash log as the only artefact
+        elif crash_copy:
             if not out.failure:
-                out.failure = (log, "process died (status %s) and the crash did not reproduce in fork mode: %s" % (
-                    rc, sanitizer_summary(log)), stage, log)
+                out.failure = (crash_copy, "process died (status %s): %s" % (rc, sanitizer_summary(log)), stage, log)
+        else:
+            if not out.failure:
+                out.failure = (log, "process died (status %s) and no crash case was captured: %s" % (rc, sanitizer_summary(log)), stage, log)
     return out
 
 
